@@ -67,6 +67,8 @@ func (P *Program) FlowToTerminal(v ssa.Value, isTerminal func(c ssa.CallInstruct
 }
 
 type flower struct {
+	viaFn      *ssa.Function       // returns of this function go to viaCall only
+	viaCall    ssa.CallInstruction
 	P          *Program
 	isTerminal func(c ssa.CallInstruction, arg int) bool
 	storeTerminal func(st *ssa.Store) bool
@@ -237,6 +239,13 @@ func (f *flower) flow(v ssa.Value, acc litSet, depth int) (bool, litSet) {
 	return reached, result
 }
 
+// FlowToTerminalVia: like FlowToTerminal, but the value returned by fn is followed at call site via only.
+func (P *Program) FlowToTerminalVia(v ssa.Value, isTerminal func(c ssa.CallInstruction, arg int) bool, fn *ssa.Function, via ssa.CallInstruction) FlowResult {
+	f := &flower{P: P, isTerminal: isTerminal, onPath: map[ssa.Value]bool{}, viaFn: fn, viaCall: via}
+	ok, g := f.flow(v, litSet{}, 0)
+	return FlowResult{Reached: ok, Guards: g, Dropped: f.dropped, Terminals: f.terminals}
+}
+
 // FlowToStore follows v forward until it is stored by a Store instruction accepted by isSink.
 func (P *Program) FlowToStore(v ssa.Value, isSink func(st *ssa.Store) bool) FlowResult {
 	f := &flower{P: P, isTerminal: func(ssa.CallInstruction, int) bool { return false }, storeTerminal: isSink, onPath: map[ssa.Value]bool{}}
@@ -294,6 +303,9 @@ func (f *flower) flowCell(cell *ssa.Alloc, acc litSet, depth int) (bool, litSet)
 // flowReturn: the value is result #idx of fn; it must flow on at ALL static product call sites.
 func (f *flower) flowReturn(fn *ssa.Function, idx int, acc litSet, depth int) (bool, litSet) {
 	callers := f.P.Callers(fn)
+	if f.viaFn == fn && f.viaCall != nil {
+		callers = []ssa.CallInstruction{f.viaCall}
+	}
 	if len(callers) == 0 {
 		return false, nil
 	}
